@@ -35,8 +35,12 @@ impl Shape {
 
     /// The number of elements of an array with the corresponding shape, or `None` on overflow.
     pub(crate) fn checked_elements(&self) -> Option<usize> {
+        // Strides and partial products are taken over sub-ranges of the axes, so a zero-length
+        // axis must not mask an overflow among the other axes.
         self.iter()
-            .try_fold(1usize, |acc, &v| acc.checked_mul(v))
+            .try_fold(1usize, |acc, &v| acc.checked_mul(v.max(1)))?;
+
+        Some(self.elements())
     }
 
     pub(crate) fn index_from_flat_unchecked(&self, mut flat: usize) -> Vec<usize> {
